@@ -150,6 +150,8 @@ def schemas : List (String × Schema) := [
   ("receipts.Requested", ⟨⟨"urn:xmpp:receipts", "request"⟩, []⟩),
   ("muc.Invitation(direct)", ⟨⟨"jabber:x:conference", "x"⟩,
     [.attr "" "continue" true, .attr "" "jid" false, .attr "" "password" true, .attr "" "reason" true, .attr "" "thread" true]⟩),
+  ("commands.Response", ⟨⟨"http://jabber.org/protocol/commands", "command"⟩,
+    [.attr "" "node" false, .attr "" "sessionid" false, .attr "" "status" false]⟩),
   ("muc.Item", ⟨⟨"", "item"⟩,
     -- `jid,attr,omitempty` on a struct type: encoding/xml never omits it
     [.attr "" "affiliation" true, .attr "" "jid" false, .attr "" "nick" true, .attr "" "role" true, .child "reason" false]⟩)
